@@ -213,6 +213,7 @@ Definition last_row_max (f : filled) (l1 : Z) : Z * Z * Z :=
 
 (* NewPwAligner + Set* + Alignment(); None = error (character outside the alphabet) *)
 Definition align_pair_with (which : Z) (atg : bool) (sc : scheme) (s1 s2 : list byte) : option result :=
+  match s1, s2 with [], _ | _, [] => None | _, _ =>     (* an empty sequence is an error *)
   let t1 := if atg then rev s1 else s1 in
   let t2 := if atg then rev s2 else s2 in
   match all_some (map (char_pos which) t1), all_some (map (char_pos which) t2) with
@@ -233,6 +234,7 @@ Definition align_pair_with (which : Z) (atg : bool) (sc : scheme) (s1 s2 : list 
               mkres mx (tb_r1 st) (tb_r2 st) start1 start2 mi mj
                     (tb_match st) (tb_mis st) (tb_gaps st) (tb_match st + tb_mis st + tb_gaps st))
   | _, _ => None
+  end
   end.
 
 Definition align_pair (atg : bool) (sc : scheme) (s1 s2 : list byte) : option result :=
